@@ -114,6 +114,8 @@ func GenWorld(r *Rng, s WorldSpec) World {
 		}
 		if cr.Bool(0.25) {
 			c.TSStyle = "trimmed"
+		} else if cr.Bool(0.08) {
+			c.TSStyle = "offsets"
 		}
 		c.Log = genLog(cr.Sub("log"), s, i)
 		w.Containers = append(w.Containers, c)
@@ -165,15 +167,33 @@ func genLog(r *Rng, s WorldSpec, ci int) []Record {
 	return recs
 }
 
+var longConstLines = func() [][]byte {
+	var out [][]byte
+	for _, n := range []int{300, 1200, 2100, 4200, 9000} {
+		b := make([]byte, n)
+		for i := range b {
+			b[i] = byte('a' + (i*5+n)%26)
+		}
+		out = append(out, b)
+	}
+	return out
+}()
+
 var constLines = []string{"GET / 200", "GET /health 200", "error: boom", "level=info msg=ok"}
 
 func genMsg(r *Rng, s WorldSpec, ci, j int) []byte {
 	token := fmt.Sprintf("c%dr%d", ci, j)
 	switch s.Msg {
 	case "const":
+		if r.Bool(0.04) {
+			// an occasional long line among the short ones (same container, same group)
+			return longConstLines[r.Intn(len(longConstLines))]
+		}
 		return []byte(constLines[r.Intn(len(constLines))])
 	case "token":
 		return []byte(token)
+	case "jsonmix":
+		return []byte(Pick(r, []string{`{"s":200}`, `{"s":"200"}`, `{"s":200.0}`, `{"s":"a"}`, `{"s":1}`, `{"s":"1"}`, `{"s":1.0,"t":"x"}`, `{"s":true}`, `{"s":"true"}`}))
 	case "kv":
 		return []byte(Pick(r, []string{"a=bc", "ab=c", "x=1 y=2", "x=12", "a=b", "b=a", "a=1,b=2", "a=1 b=2", "abc=", "a=bc k=1", "ab=c k=1"}))
 	case "structured":
@@ -181,6 +201,10 @@ func genMsg(r *Rng, s WorldSpec, ci, j int) []byte {
 		k := r.Intn(5)
 		switch r.Intn(3) {
 		case 0:
+			if r.Bool(0.06) {
+				// a rare value: not-a-number
+				return []byte(fmt.Sprintf("level=%s k=NaN tok=%s", level, token))
+			}
 			return []byte(fmt.Sprintf("level=%s k=%d tok=%s text=\"hello world\"", level, k, token))
 		case 1:
 			return []byte(fmt.Sprintf(`{"level":%q,"k":%d,"tok":%q,"nested":{"a":"b"}}`, level, k, token))
@@ -200,6 +224,8 @@ func genMsg(r *Rng, s WorldSpec, ci, j int) []byte {
 			return []byte{0xff, 0xfe, 0x00, 0x80, ' ', 0xc3, 0x28}
 		case x < 44 && !s.NoHuge:
 			return hugeMsg(r)
+		case x < 50:
+			return thresholdMsg(r)
 		}
 		fallthrough
 	default: // rich
@@ -219,6 +245,9 @@ func genMsg(r *Rng, s WorldSpec, ci, j int) []byte {
 		case x < 87 && !s.NoHuge:
 			b = append(b, ' ')
 			b = append(b, hugeMsg(r)...)
+		case x < 90 && !s.NoHuge:
+			b = append(b, ' ')
+			b = append(b, thresholdMsg(r)...)
 		default:
 			b = append(b, ' ')
 			for k := r.Intn(40); k > 0; k-- {
@@ -227,6 +256,17 @@ func genMsg(r *Rng, s WorldSpec, ci, j int) []byte {
 		}
 		return b
 	}
+}
+
+// thresholdMsg returns a message whose frame straddles a common buffer size.
+func thresholdMsg(r *Rng) []byte {
+	t := []int{512, 1024, 4096, 4096, 8192, 16384, 32768}[r.Intn(7)]
+	n := t - 40 + r.Intn(80)
+	b := make([]byte, n)
+	for i := range b {
+		b[i] = byte('a' + (i*11+n)%26)
+	}
+	return b
 }
 
 func hugeMsg(r *Rng) []byte {
